@@ -20,11 +20,13 @@ func init() {
 // semantics, C01 re-evaluates the declared constraints on the destination whenever zog
 // reported nothing (an oracle that does not depend on the reference's issue computation).
 
-func C01_Jobs() []string {
+func C01_Jobs() []string { return append(c01_jobs0(), "json-records") }
+func c01_jobs0() []string {
 	return append(shapeJobs(), "hist/two-dest-types/parse", "hist/two-dest-types/validate", "hist/catch-then-ptr", "hist/shared-leaf",
-		"hist/preprocess", "hist/str-not", "hist/blank-required", "hist/merge-tests")
+		"hist/preprocess", "hist/str-not", "hist/blank-required", "hist/merge-tests", "hist/dash-tags")
 }
-func C02_Jobs() []string {
+func C02_Jobs() []string { return append(c02_jobs0(), "json-records") }
+func c02_jobs0() []string {
 	out := shapeJobs()
 	// the same exact comparison after an earlier execution that panicked in a user callback
 	// below the top level and was recovered (paths must still be rooted at this call's root)
@@ -164,6 +166,31 @@ func c01History(kind, mode string) {
 		} else {
 			v.Cover("issues")
 		}
+	case "dash-tags":
+		// a destination field whose source tag is "-" is still a node of the schema: its constraints
+		// are enforced on the value the call leaves there (map input and a JSON document)
+		g, x := v.Int("g"), v.Int("x")
+		var d struct {
+			A int `zog:"-"`
+			B int `json:"-"`
+			N struct {
+				C int `json:"-"`
+			}
+		}
+		s := z.Struct(z.Schema{"a": z.Int().Required().GT(g), "b": z.Int().Required().GT(g), "n": z.Struct(z.Schema{"c": z.Int().Required().GT(g)})})
+		var errs z.ZogIssueMap
+		if v.Choice("src", 2) == 0 {
+			errs = s.Parse(map[string]any{"-": x, "b": x, "n": map[string]any{"c": x}}, &d)
+		} else {
+			x = 5
+			errs = s.Parse(zjson.Decode(strings.NewReader(`{"-":5,"n":{"-":5}}`)), &d)
+		}
+		if errs == nil {
+			v.Cover("no-issues")
+			v.Assert(d.A == x && d.B == x && d.N.C == x && x > g, "C01:constraint-not-enforced")
+		} else {
+			v.Cover("issues")
+		}
 	case "merge-tests":
 		// struct-level tests of every operand of a Merge are constraints of the merged schema
 		x, y := v.Int("x"), v.Int("y")
@@ -240,6 +267,10 @@ func c01History(kind, mode string) {
 }
 
 func C01_Run(job string) {
+	if job == "json-records" {
+		jrCheck("C01")
+		return
+	}
 	if h, kind, mode, _ := split3(job); h == "hist" {
 		c01History(kind, mode)
 		return
@@ -471,6 +502,10 @@ func c02Extra(kind, mode string) {
 var errBadInput = errors.New("bad input")
 
 func C02_Run(job string) {
+	if job == "json-records" {
+		jrCheck("C02")
+		return
+	}
 	if a, kind, mode, _ := split3(job); a == "extra" {
 		c02Extra(kind, mode)
 		return
